@@ -1,16 +1,16 @@
     // fi_sketch vx_sort_rows_desc: `rows.sort_by_key(|row| std::cmp::Reverse(row.estimate))` => permutation of the rows, estimates descending.
-    // REAL Row<T> (T = u64), <= 4 rows, every field symbolic.
+    // REAL Row<T> (T = u64), concrete lengths 0..=4, every field symbolic.
     fn any_row() -> Row<u64> { Row { item: kani::any(), estimate: kani::any(), upper_bound: kani::any(), lower_bound: kani::any() } }
-    #[kani::proof]
-    #[kani::unwind(6)]
-    fn shim_sort_rows_desc() {
-        let x = [any_row(), any_row(), any_row(), any_row()];
-        let n: usize = kani::any(); kani::assume(n <= 4);
-        let mut rows: Vec<Row<u64>> = x[..n].to_vec();
+    fn sort_rows_case<const N: usize>() {
+        let x: [Row<u64>; N] = core::array::from_fn(|_| any_row());
+        let mut rows: Vec<Row<u64>> = x.to_vec();
         rows.sort_by_key(|row| std::cmp::Reverse(row.estimate));
-        assert!(rows.len() == n);
+        assert!(rows.len() == N);
         let w = any_row();
         let mut c0 = 0; let mut c1 = 0; let mut i = 0;
-        while i < n { if x[i] == w { c0 += 1; } if rows[i] == w { c1 += 1; } if i + 1 < n { assert!(rows[i].estimate >= rows[i + 1].estimate); } i += 1; }
+        while i < N { if x[i] == w { c0 += 1; } if rows[i] == w { c1 += 1; } if i + 1 < N { assert!(rows[i].estimate >= rows[i + 1].estimate); } i += 1; }
         assert!(c0 == c1);
     }
+    #[kani::proof]
+    #[kani::unwind(6)]
+    fn shim_sort_rows_desc() { sort_rows_case::<0>(); sort_rows_case::<1>(); sort_rows_case::<2>(); sort_rows_case::<3>(); sort_rows_case::<4>(); }
